@@ -62,27 +62,39 @@ def env(C):
 
 
 def valid_population(C):
-    """is_valid(): real agents; every property is a {"type","value"} record; uniformity of numeric property
-    names inside a (type,state) group (without it the recorded mean depends on the order of the agents)"""
+    """is_valid(): real agents whose property dicts are well formed and hold {"type","value"} records"""
     at, ty, stt, pr, n = env(C)
     ags = C.agents
     return And(
         FA('idx', lambda i: Implies(And(0 <= i, i < n), And(ags[i] != NULL, ags[i].properties.wf))),
         FA('idx', 'str', lambda i, p: Implies(And(0 <= i, i < n, ags[i].properties.has(p)),
-                                              And(ags[i].properties[p].has('type'), ags[i].properties[p].has('value')))),
-        FA('idx', 'str', 'str', 'str',
-           lambda i, p, T, S: Implies(And(0 <= i, i < n, ty[at[i]] == T, stt[at[i]] == S, pcnt(at, ty, stt, pr, T, S, p, i) > 0),
-                                      numeric(pr, at[i], p)),
-           pats=lambda i, p, T, S: [pcnt(at, ty, stt, pr, T, S, p, i)]))
+                                              And(ags[i].properties[p].has('type'), ags[i].properties[p].has('value')))))
 
 
-def prop_stats_ok(ps, total, cnt, mx, mn, mean_total, mean_cnt):
+def uniform(C):
+    """agents of one (type,state) group carry the same numeric property names; only the recorded MEAN depends
+    on it (without it the mean is taken over a count that includes agents lacking the property)"""
+    at, ty, stt, pr, n = env(C)
+    key = (at.get_id(), ty.get_id(), stt.get_id(), pr.get_id(), n.get_id())
+    if key not in _UNI:
+        # one shared placeholder per entry state: uses in hypotheses and goals then agree propositionally
+        _UNI[key] = FA('idx', 'str', 'str', 'str',
+                       lambda i, p, T, S: Implies(And(0 <= i, i < n, ty[at[i]] == T, stt[at[i]] == S, pcnt(at, ty, stt, pr, T, S, p, i) > 0),
+                                                  numeric(pr, at[i], p)),
+                       pats=lambda i, p, T, S: [pcnt(at, ty, stt, pr, T, S, p, i)])
+    return _UNI[key]
+
+
+_UNI = {}
+
+
+def prop_stats_ok(C, ps, total, cnt, mx, mn, mean_total, mean_cnt):
     """ps: RecView of one {"total","max","min","mean"} record"""
     return And(ps.has('total'), ps.has('max'), ps.has('min'), ps.has('mean'),
                ps['total'] == total,
                Not(ps['max'].is_none), ps['max'].v == mx,
                Not(ps['min'].is_none), ps['min'].v == mn,
-               ps['mean'] == RDIV(mean_total, z3.ToReal(mean_cnt)))
+               Implies(uniform(C), ps['mean'] == RDIV(mean_total, z3.ToReal(mean_cnt))))
 
 
 def group_ok(C, st, T, S, k, extra=None):
@@ -97,7 +109,7 @@ def group_ok(C, st, T, S, k, extra=None):
             c = pcnt(at, ty, stt, pr, T, S, p, k)
             return And(rec.rest.has(p) == (c > 0),
                        Implies(rec.rest.has(p),
-                               prop_stats_ok(rec.rest[p], psum(at, ty, stt, pr, T, S, p, k), cnt,
+                               prop_stats_ok(C, rec.rest[p], psum(at, ty, stt, pr, T, S, p, k), cnt,
                                              pmax(at, ty, stt, pr, T, S, p, k), pmin(at, ty, stt, pr, T, S, p, k),
                                              psum(at, ty, stt, pr, T, S, p, k), cnt)))
     else:
@@ -114,7 +126,7 @@ def group_ok(C, st, T, S, k, extra=None):
             tot = s0 + If(proc, v, 0)
             return And(rec.rest.has(p) == (c0 + If(proc, 1, 0) > 0),
                        Implies(rec.rest.has(p),
-                               prop_stats_ok(rec.rest[p], tot, cnt,
+                               prop_stats_ok(C, rec.rest[p], tot, cnt,
                                              If(proc, If(c0 == 0, v, If(v > mx0, v, mx0)), mx0),
                                              If(proc, If(c0 == 0, v, If(v < mn0, v, mn0)), mn0),
                                              If(proc, tot, s0), If(proc, cnt, base_cnt))))
@@ -162,7 +174,8 @@ def cas_inv1(C):
 c = contract('DataCollector.collect_agent_statistics', file=F, props=['C13'],
              params=dict(self=DC, time=REAL, agents=TList(A)),
              requires=valid_population, ensures=cas_post, loops={0: cas_inv0, 1: cas_inv1},
-             modifies=['DataCollector.agent_statistics'])
+             modifies=['DataCollector.agent_statistics'], ghost_mods=['$tr'], ghost={'tr': TList(TRACE_EV)},
+             ghost_update=lambda C, st: st.ghost.__setitem__('tr', SV(st.ghost['tr'].t, l_append(st.ghost['tr'].t, st.ghost['tr'].z, TraceEv.collect(C.time)))))
 c.uninterpreted_div = True
 
 
